@@ -119,6 +119,22 @@ int64_t nv_evals, nv_eval_ver; double nv_eval_score, nv_eval_mid, nv_eval_thr; i
 int64_t nv_stores, nv_store_ver; double nv_store_score, nv_store_mid, nv_store_thr; int32_t nv_store_side;
 int64_t nv_row0_sets, nv_row1_sets, nv_row0_ver, nv_row1_ver; int32_t nv_row0_kind, nv_row1_kind;
 double __CPROVER_uninterpreted_fitscore(int32_t, int64_t, int64_t, double, double, int32_t, double);
+/* "the minimum over ALL candidates": the ghost CUT nv_c (number of entries left of it).  If it is a boundary between two different
+ * consecutive sorted values, it is evaluated exactly once per direction (stump: once; hinge: left and right hinge), and the score
+ * the cache ends with is <= every finite score evaluated there.  nv_c_score_a: stump / left hinge, nv_c_score_b: right hinge */
+/* targets *_fit_sweep_opt_visit / *_fit_sweep_opt_best (NV_OPT_VISIT / NV_OPT_BEST): the ghost-cut clauses; the plain *_fit_sweep targets carry none of them */
+#if defined(NV_OPT_VISIT) || defined(NV_OPT_BEST)
+#define NV_OPT 1
+/* the best score so far is a number: no_fit_score() (cache_t's default member initialiser) or a finite score stored by an earlier sweep (.best: preserved) */
+#define NV_OPT_REQ __CPROVER_requires(nv_c_evals == 0 && nv_c_evals_b == 0 && NV_NOT_NAN(caches->cur->m_score))
+#define NV_OPT_GHOST nv_c_evals, nv_c_evals_b, nv_c_score_a, nv_c_score_b,
+#else
+#define NV_OPT_REQ
+#define NV_OPT_GHOST
+#endif
+uint64_t nv_c; int64_t nv_c_evals, nv_c_evals_b; double nv_c_score_a, nv_c_score_b;
+#define NV_IS_BOUNDARY(c, V) (1 <= (V) && (V) < (c)->m_ivalues.n && (c)->m_ivalues.p[(V) - 1].first < (c)->m_ivalues.p[V].first)
+#define NV_NOT_NAN(x) ((x) == (x))
 
 /* ASSUMED: caches has one cache per thread and tnum is the calling thread (select_iterator_t::loop) */
 static struct nv_fitcache* nv_cvec_at(const struct nv_cvec* v, uint64_t k)
@@ -177,6 +193,15 @@ static double nv_candidate(const struct nv_fitcache* c, int32_t side, double thr
   nv_evals = (nv_evals < NV_MAXN) ? nv_evals + 1 : nv_evals;
   nv_eval_ver = V; nv_eval_mid = mid; nv_eval_side = side;
   nv_eval_score = __CPROVER_uninterpreted_fitscore(side, V, c->m_acc_sum.ver, mrss, mcnt, criterion, mid);
+#ifdef NV_OPT
+  if ((uint64_t)V == nv_c)
+#else
+  if (0)
+#endif
+  {
+    if (side == NV_SIDE_POS) { nv_c_evals_b = (nv_c_evals_b < NV_MAXN) ? nv_c_evals_b + 1 : nv_c_evals_b; nv_c_score_b = nv_eval_score; }
+    else { nv_c_evals = (nv_c_evals < NV_MAXN) ? nv_c_evals + 1 : nv_c_evals; nv_c_score_a = nv_eval_score; }
+  }
   return nv_eval_score;
 }
 /* coefficients computed from the accumulators (output_neg / output_pos / beta_neg / beta_pos): which side, at which moment */
@@ -217,8 +242,8 @@ __CPROVER_requires(__CPROVER_is_fresh(caches, sizeof(*caches)) && NV_FITCACHE_OK
 /* the followed entry; its sample indexes a row of gradients (samples index rows of gradients: wlearner_t::fit asserts it) */ \
 __CPROVER_requires((nv_p < caches->cur->m_ivalues.n) ? (nv_track == &caches->cur->m_ivalues.p[nv_p].second && 0 <= caches->cur->m_ivalues.p[nv_p].second \
    && caches->cur->m_ivalues.p[nv_p].second < gradients->rows) : nv_track == NULL) \
-__CPROVER_requires(nv_feature == feature && !nv_fitbad && nv_evals == 0 && nv_stores == 0 && nv_row0_sets == 0 && nv_row1_sets == 0)
-#define NV_SWEEP_GHOST nv_fitbad, nv_evals, nv_eval_ver, nv_eval_score, nv_eval_mid, nv_eval_side, nv_stores, nv_store_ver, nv_store_score, nv_store_mid, nv_store_thr, nv_store_side, nv_eval_thr, \
+__CPROVER_requires(nv_feature == feature && !nv_fitbad && nv_evals == 0 && nv_stores == 0 && nv_row0_sets == 0 && nv_row1_sets == 0) NV_OPT_REQ
+#define NV_SWEEP_GHOST NV_OPT_GHOST nv_fitbad, nv_evals, nv_eval_ver, nv_eval_score, nv_eval_mid, nv_eval_side, nv_stores, nv_store_ver, nv_store_score, nv_store_mid, nv_store_thr, nv_store_side, nv_eval_thr, \
   nv_row0_sets, nv_row1_sets, nv_row0_ver, nv_row1_ver, nv_row0_kind, nv_row1_kind
 #define NV_SWEEP_ASSIGNS __CPROVER_assigns(caches->cur->m_acc_sum, caches->cur->m_acc_neg, caches->cur->m_feature, caches->cur->m_threshold, caches->cur->m_score, caches->cur->m_hinge, NV_SWEEP_GHOST)
 /* the cache after the sweep: untouched if nothing was stored, else one consistent candidate */
@@ -236,7 +261,10 @@ __CPROVER_ensures(nv_stores == 0 ==> (NV_IDENT(caches->cur->m_score, __CPROVER_o
    && caches->cur->m_feature == __CPROVER_old(caches->cur->m_feature))) \
 /* the threshold stored (NV_STORED_CONSISTENT: bit-identical with nv_store_mid, which nv_candidate computed as 0.5 * (v1 + v2) \
  * from the two sorted entries around the cut nv_store_ver) belongs to a cut between two different consecutive values */ \
-__CPROVER_ensures(nv_stores > 0 ==> caches->cur->m_ivalues.p[nv_store_ver - 1].first < caches->cur->m_ivalues.p[nv_store_ver].first)
+__CPROVER_ensures(nv_stores > 0 ==> caches->cur->m_ivalues.p[nv_store_ver - 1].first < caches->cur->m_ivalues.p[nv_store_ver].first) \
+/* .best: EVERY boundary between two different consecutive sorted values (ghost cut nv_c) was evaluated exactly once, the final score is <= the \
+ * score evaluated there (if finite) and <= the score before the sweep; it is that old score or the score of a candidate (STORED_CONSISTENT) */ \
+NV_BEST_POST(1)
 #define NV_SWEEP_INV(c) \
 __CPROVER_loop_invariant(sv == (c)->m_ivalues.n && sv <= NV_MAXN && ((sv == 0) ? (iv == 0) : (iv < sv)) && !nv_fitbad) \
 __CPROVER_loop_invariant((c)->m_acc_neg.ver == (int64_t)iv && (c)->m_acc_neg.cnt == ((nv_p < iv) ? 1 : 0)) \
@@ -244,11 +272,32 @@ __CPROVER_loop_invariant((c)->m_acc_sum.ver == (int64_t)(c)->m_ivalues.n && (c)-
 __CPROVER_loop_invariant(NV_STORED_CONSISTENT(c) && nv_row0_sets <= NV_STORES_PER_CUT * (int64_t)iv) \
 __CPROVER_loop_invariant(nv_stores > 0 ==> (c)->m_ivalues.p[nv_store_ver - 1].first < (c)->m_ivalues.p[nv_store_ver].first) \
 __CPROVER_loop_invariant(NV_STORED_SEPARATES(c))
+/* best so far: every boundary up to the sweep position was evaluated (once per direction) and the cache's score is <= every finite
+ * score evaluated at the ghost boundary, and never worse than the score the sweep started with */
+#ifdef NV_OPT_VISIT
+#define NV_VISITED(c, visited, dirs) (nv_c_evals == ((NV_IS_BOUNDARY(c, nv_c) && (visited)) ? 1 : 0) && nv_c_evals_b == ((NV_IS_BOUNDARY(c, nv_c) && (visited) && (dirs) == 2) ? 1 : 0))
+#else
+#define NV_VISITED(c, visited, dirs) 1
+#endif
+#ifdef NV_OPT_BEST
+#define NV_MINIMUM(c, old) (NV_NOT_NAN((c)->m_score) && (c)->m_score <= (old) \
+  && ((nv_c_evals > 0 && NV_ISFIN(nv_c_score_a)) ==> (c)->m_score <= nv_c_score_a) && ((nv_c_evals_b > 0 && NV_ISFIN(nv_c_score_b)) ==> (c)->m_score <= nv_c_score_b))
+#else
+#define NV_MINIMUM(c, old) 1
+#endif
+#ifdef NV_OPT
+#define NV_BEST_POST(dirs) __CPROVER_ensures(NV_VISITED(caches->cur, 1, dirs) && NV_MINIMUM(caches->cur, __CPROVER_old(caches->cur->m_score)))
+#define NV_BEST_INV(dirs) __CPROVER_loop_invariant(NV_VISITED(cache, nv_c <= iv, dirs) && NV_MINIMUM(cache, __CPROVER_loop_entry(cache->m_score)))
+#else
+#define NV_BEST_POST(dirs)
+#define NV_BEST_INV(dirs)
+#endif
 #define NV_STORES_PER_CUT 2      /* the hinge may store twice per cut (left and right direction), the stump once */
 #define NV_LOOP_stump_fit_sweep_1 \
 __CPROVER_assigns(iv, cache->m_acc_neg, cache->m_feature, cache->m_threshold, cache->m_score, NV_SWEEP_GHOST) \
 NV_SWEEP_INV(cache) \
 __CPROVER_loop_invariant(NV_STUMP_STORED(cache)) \
+NV_BEST_INV(1) \
 __CPROVER_loop_invariant(nv_stores == 0 ==> (NV_IDENT(cache->m_score, __CPROVER_loop_entry(cache->m_score)) && NV_IDENT(cache->m_threshold, __CPROVER_loop_entry(cache->m_threshold)) \
    && cache->m_feature == __CPROVER_loop_entry(cache->m_feature))) \
 __CPROVER_decreases(sv - iv)
@@ -262,11 +311,14 @@ __CPROVER_ensures(!nv_fitbad && NV_STORED_CONSISTENT(caches->cur) && NV_HINGE_ST
 __CPROVER_ensures(NV_STORED_SEPARATES(caches->cur)) \
 __CPROVER_ensures(nv_stores == 0 ==> (NV_IDENT(caches->cur->m_score, __CPROVER_old(caches->cur->m_score)) && NV_IDENT(caches->cur->m_threshold, __CPROVER_old(caches->cur->m_threshold)) \
    && caches->cur->m_feature == __CPROVER_old(caches->cur->m_feature) && caches->cur->m_hinge == __CPROVER_old(caches->cur->m_hinge))) \
-__CPROVER_ensures(nv_stores > 0 ==> caches->cur->m_ivalues.p[nv_store_ver - 1].first < caches->cur->m_ivalues.p[nv_store_ver].first)
+__CPROVER_ensures(nv_stores > 0 ==> caches->cur->m_ivalues.p[nv_store_ver - 1].first < caches->cur->m_ivalues.p[nv_store_ver].first) \
+/* .best: every boundary was evaluated exactly once per direction; the final score is <= both scores (if finite) and <= the old score */ \
+NV_BEST_POST(2)
 #define NV_LOOP_hinge_fit_sweep_1 \
 __CPROVER_assigns(iv, cache->m_acc_neg, cache->m_feature, cache->m_threshold, cache->m_score, cache->m_hinge, NV_SWEEP_GHOST) \
 NV_SWEEP_INV(cache) \
 __CPROVER_loop_invariant(NV_HINGE_STORED(cache) && ((nv_p < iv) ==> NV_IDENT(cache->m_acc_neg.val, cache->m_ivalues.p[nv_p].first))) \
+NV_BEST_INV(2) \
 __CPROVER_loop_invariant(nv_stores == 0 ==> (NV_IDENT(cache->m_score, __CPROVER_loop_entry(cache->m_score)) && NV_IDENT(cache->m_threshold, __CPROVER_loop_entry(cache->m_threshold)) \
    && cache->m_feature == __CPROVER_loop_entry(cache->m_feature) && cache->m_hinge == __CPROVER_loop_entry(cache->m_hinge))) \
 __CPROVER_decreases(sv - iv)
